@@ -1,8 +1,10 @@
 package main
 
 import (
+	"bufio"
 	"errors"
 	"io"
+	"net"
 	"net/http"
 	"sort"
 	"strings"
@@ -118,6 +120,14 @@ func (w *SimWriter) ReadFrom(r io.Reader) (int64, error) {
 			return total, err
 		}
 	}
+}
+
+// Hijack hands out an in-memory connection, as a net/http response does.
+func (w *SimWriter) Hijack() (net.Conn, *bufio.ReadWriter, error) {
+	a, b := net.Pipe()
+	b.Close()
+	w.add(WCall{Op: "Hijack"})
+	return a, bufio.NewReadWriter(bufio.NewReader(a), bufio.NewWriter(a)), nil
 }
 
 func (w *SimWriter) Flush() {
